@@ -466,7 +466,7 @@ class Model(object):
                 self.blobs[e['bid']]['bit'] = False      # no longer a boot file: reads back as supplied
         self.boot = None
         self.blobs.pop('CAT', None)
-        self.hybrid_dangling = self.hybrid is not None
+        self.hybrid = None       # an isohybrid MBR cannot outlive the El Torito boot file it loads
 
     def op_add_isohybrid(self, **kw):
         if not self.boot:
